@@ -32,8 +32,5 @@ def replay(ctx, path):
         ctx.monitor('tso', 'Mon_TSOHistory', 'Mon_TSOHistory.cfg', tr, 'replay')
         return ctx.finish()
     bad, evs = ctx.monitor_all('tso', 'Mon_TSO', 'Mon_TSO.cfg', tr, 'replay')
-    for b in bad:
-        if b[1] in T.C01:
-            ctx.report(b[1], T.classify(b, evs), tr, None, None, 'replay')
-            break
+    T.handle_bad(ctx, T.C01, bad, evs, 'replay')
     return ctx.finish()
